@@ -105,6 +105,46 @@ def generate_structure_checks(env, res):
                     res.add("R01.e", "generate_internal/stop-not-last",
                             "after the collapse phase the output must receive exactly the STOP byte; found %r" % (after,), loc)
     res.floor("R01.a", 6, "generate_internal leaves")
+    # get_valid_opcodes == table row filtered by exactly can_emit; weighted_choice returns an element of its argument
+    t2 = PV.table_T2(env)
+    lv = PV.op_loc(env, "::get_valid_opcodes")
+    for ver in (0, 5):
+        for (r, pe) in GA.valid_opcodes_leaves(env, ver):
+            res.count("R01.a-valid")
+            if pe is not None:
+                res.add("R01.a", "get_valid_opcodes/ends", "get_valid_opcodes does not return normally: %s" % (pe.info,), lv)
+                continue
+            asked, vec = r
+            row = t2.get(ver, [])
+            if [a for a, _ in asked] != row[:len(asked)] or len(asked) != len(row):
+                res.add("R01.a", "get_valid_opcodes/not-table-row", "get_valid_opcodes (protocol %d) does not ask can_emit for exactly the opcodes of the protocol's table row, in order" % ver, lv)
+                break
+            got = [v.vname for v in GA.M.as_elems(None, vec)] if hasattr(vec, "elems") else None
+            want = [a for a, c in asked if c]
+            if got != want:
+                res.add("R01.a", "get_valid_opcodes/filter", "get_valid_opcodes returns %r although can_emit holds exactly for %r" % (got, want), lv)
+                break
+    lw = PV.op_loc(env, "::weighted_choice")
+    # the empty list is only a relevant argument if the generation loop can pass one
+    may_pass_empty = False
+    for ver in (0, 2, 4):
+        for g in env.memo(("gen_leaves", ver), lambda ver=ver: GA.generate_internal_leaves(env, ver)):
+            for e in g.events:
+                if e[0] == "call" and e[1] == "weighted_choice" and e[3] is not False:
+                    may_pass_empty = True
+    for names in (([],) if may_pass_empty else ()) + (["Mark"], ["Int", "Pop", "Dup"]):
+        seen = set()
+        for (r, pe, panics) in GA.weighted_choice_leaves(env, names):
+            res.count("R01.a-choice")
+            if pe is not None or panics:
+                res.add("R01.a", "weighted_choice/panic", "weighted_choice(%r) can panic: %s %s" % (names, pe and pe.info, panics[:1]), lw)
+                continue
+            v = r[1]
+            seen.add(getattr(v, "vname", None))
+            if names and getattr(v, "vname", None) not in names:
+                res.add("R01.a", "weighted_choice/not-member", "weighted_choice(%r) can return %r, which is not an element of its argument" % (names, v), lw)
+        if names and seen != set(names):
+            res.add("R01.a", "weighted_choice/coverage", "weighted_choice(%r) can only return %r" % (names, sorted(x for x in seen if x)), lw)
     return n
 
 
